@@ -70,8 +70,26 @@ impl C13Case {
         w
     }
 
+    /// The direct line typed between a break and CONT: it reads, lists or saves, it never assigns.
+    fn inspect_line(&self) -> Option<&'static str> {
+        if !self.inspect {
+            return None;
+        }
+        const LINES: [&str; 8] = [
+            "PRINT N%;A;S$",
+            "PRINT N%;A;S$",
+            "PRINT N%;A;S$",
+            "SAVE \"SNAP\"",
+            "LIST",
+            "LIST -30",
+            "PRINT A:SAVE \"SNAP\":REM",
+            "PRINT LEN(S$);:PRINT",
+        ];
+        Some(LINES[(self.sched_seed % 8) as usize])
+    }
+
     fn complete(&self, w: &mut World, plan: &Plan) -> (Completion, Vec<Tok>) {
-        let inspect = if self.inspect { Some("PRINT N%;A;S$") } else { None };
+        let inspect = self.inspect_line();
         let c = run_to_completion(w, "RUN", &self.replies, &self.keys, plan, inspect, self.max_instr, 300);
         let probes = run_probes(w, &probe_lines(&self.prog));
         (c, probes)
@@ -389,7 +407,7 @@ impl Case for C13Case {
             .set("replies", self.replies.clone())
             .set("keys", self.keys.clone())
             .set("focus", format!("{:?}", self.focus))
-            .set("inspect_line_between_break_and_cont", self.inspect)
+            .set("inspect_line_between_break_and_cont", self.inspect_line().unwrap_or("(none)"))
             .set("layout_member_breaks_only_at_column_0", self.layout_member)
             .set("post_cont_schedule_seed", self.sched_seed)
             .set("entropy", self.entropy)
@@ -579,7 +597,7 @@ impl Property for C13 {
         }
     }
     fn rule(&self) -> &'static str {
-        "one evaluation = one generated program (2-25 lines; FOR/WHILE/GOSUB/ON/IF/INPUT/READ/DEF FN/SWAP/MID$=, optional planted runtime error) for which EVERY interrupt instant k in 0..N (N = instructions of the uninterrupted run, up to 700), every INPUT wait, every after-reply instant and (15% of the programs carry a LIST statement) every instant between two listed lines is executed with interrupt()+CONT, STOP and END are inserted at every top-level statement boundary, and 7 quantum schedules are run; 1 in 400 evaluations is a GOSUB recursion to 65 504 - 65 530 frames with an INPUT at the bottom (interrupts with the value stack almost full); distinct = distinct fingerprint of all event logs of the case; non-trivial = the uninterrupted run executed more than 5 VM instructions"
+        "one evaluation = one generated program (2-25 lines; FOR/WHILE/GOSUB/ON/IF/INPUT/READ/DEF FN/SWAP/MID$=, optional planted runtime error) for which EVERY interrupt instant k in 0..N (N = instructions of the uninterrupted run, up to 700), every INPUT wait, every after-reply instant and (15% of the programs carry a LIST statement) every instant between two listed lines is executed with interrupt()+CONT, STOP and END are inserted at every top-level statement boundary, and 7 quantum schedules are run; in half of the programs a non-assigning direct line (PRINT of variables, SAVE, LIST, LIST -30, PRINT:SAVE:REM) is typed between every break and its CONT; 1 in 400 evaluations is a GOSUB recursion to 65 504 - 65 530 frames with an INPUT at the bottom (interrupts with the value stack almost full); distinct = distinct fingerprint of all event logs of the case; non-trivial = the uninterrupted run executed more than 5 VM instructions"
     }
     fn assumptions(&self) -> Vec<&'static str> {
         vec![
